@@ -36,7 +36,10 @@ type streamOut struct {
 }
 
 // streamCall: what generated code does for a server-streaming method, then drain.
-func streamCall(rt http.RoundTripper, o optSet) (so streamOut) {
+func streamCall(rt http.RoundTripper, o optSet) streamOut { return streamCallReq(rt, o, "req") }
+
+// streamCallReq: the same with a chosen request value (register.go: it selects the outcome).
+func streamCallReq(rt http.RoundTripper, o optSet, reqVal string) (so streamOut) {
 	atomic.AddInt64(&progress, 1)
 	so.h = o.build()
 	defer func() {
@@ -52,7 +55,7 @@ func streamCall(rt http.RoundTripper, o optSet) (so streamOut) {
 		so.newErr = err
 		return
 	}
-	cs.SendMsg(wrapperspb.String("req"))
+	cs.SendMsg(wrapperspb.String(reqVal))
 	cs.CloseSend()
 	for so.n <= 8 {
 		var out wrapperspb.StringValue
